@@ -153,7 +153,7 @@ def run(ctx):
         else:
             specs += [(A18, n, [a, b]) for a in A18 for b in A18]
     # longer sequences over the 12-token core
-    k11 = 5 if q else 7
+    k11 = 5 if q else 6
     specs += [(T.ALPHABET11, k11, [a, b]) for a in T.ALPHABET11 for b in T.ALPHABET11]
     ctx.pmap(shard_seq, specs, into=acc)
     dspecs = []
